@@ -94,6 +94,10 @@ func c06Answers() (ocspA, crlA []faultAnswer) {
 		crlA = append(crlA, faultAnswer{name: g.name, crl: func(w *revWorld, s source) netsim.Answer { return g.f(cleanC(w, s)) }})
 	}
 	crlA = append(crlA, faultAnswer{name: "clean-without-content-length", good: true, crl: func(w *revWorld, s source) netsim.Answer { a := cleanC(w, s); a.NoLength = true; return a }})
+	crlA = append(crlA, faultAnswer{name: "clean-base-advertising-only-non-http-delta-locations", crl: func(w *revWorld, s source) netsim.Answer {
+		return netsim.Answer{Status: 200, Body: pki.ForgeCRL(pki.CRLSpec{Issuer: w.certs[s.cert+1], Number: 10, NextUpdate: pki.Now.Add(24 * time.Hour),
+			Freshest: pki.CDPValue([][]string{{"uri:https://crl.test/delta"}, {"uri:ldap://crl.test/delta"}})})}
+	}})
 	crlA = append(crlA, faultAnswer{name: "cancel-during-request", cancel: "during", crl: cleanC})
 	crlA = append(crlA, faultAnswer{name: "cancel-after-request", cancel: "after", good: true, crl: cleanC})
 	crlA = append(crlA, faultAnswer{name: "body-32MiB-of-zeros", heavy: true, crl: func(w *revWorld, s source) netsim.Answer {
@@ -167,7 +171,7 @@ func c06Scenarios(tier mc.Tier) []mc.Scenario {
 	noCancel := func(a faultAnswer) bool { return !a.heavy && a.cancel == "" }
 	reduced := func(a faultAnswer) bool {
 		switch a.name {
-		case "good", "revoked", "clean", "lists", "good-without-content-length", "clean-without-content-length", "transport-error", "timeout", "http-404(genuine body)", "http-503(genuine body)", "empty-body", "truncated-half", "truncated-last-byte",
+		case "good", "revoked", "clean", "lists", "good-without-content-length", "clean-without-content-length", "clean-base-advertising-only-non-http-delta-locations", "transport-error", "timeout", "http-404(genuine body)", "http-503(genuine body)", "empty-body", "truncated-half", "truncated-last-byte",
 			"garbage", "oversized-20KiB+1", "ocsp-error-status-3", "cancel-during-request", "cancel-after-request":
 			return true
 		}
